@@ -4,7 +4,8 @@
    statistics part of Dataset.materialize; it is tied to /repo by the
    correspondence run of ./check C03.  Values of category columns are integer
    ids, NaN is None, std is kept squared (population variance). *)
-From Coq Require Import List Arith ZArith QArith Bool Permutation Sorting.Sorted String.
+From Coq Require Import List Arith ZArith QArith Bool Permutation Sorting.Sorted.
+From Coq Require Strings.String.
 From PF Require Import Lib.ListX Lib.QStats Gen.Tables Model.Stats Proofs.StatsProofs.
 Import ListNotations.
 
@@ -242,13 +243,14 @@ Example ex_timestamps :
             t_oldest := [1969; 11; 30; 2; 23; 59; 55]; t_median := [1970; 0; 0; 3; 0; 5; 0] |}%Z.
 Proof. vm_compute. reflexivity. Qed.
 
+Import Strings.String.
 Example ex_history :
-  (* frame versions 0 (dirty) and 1 (repaired); column "b" raises on version 0 after "a" was written;
-     a column-selected copy materialized ["a"] on version 0 before: the store really holds stale entries
+  (* frame versions 0 (dirty) and 1 (repaired); column "b"%string raises on version 0 after "a"%string was written;
+     a column-selected copy materialized ["a"%string] on version 0 before: the store really holds stale entries
      after the failed attempt, and none after the completed one *)
   let compute := fun (c : String.string) (v : nat) =>
-                   if (String.eqb c "b" && Nat.eqb v 0)%bool then None else Some (c, v) in
-  run_history compute [(["a"], 0%nat); (["a"; "b"; "c"], 0%nat)] [] = ([("a", ("a", 0%nat))], [true; false]) /\
-  run_history compute [(["a"], 0%nat); (["a"; "b"; "c"], 0%nat); (["a"; "b"; "c"], 1%nat)] []
-  = ([("a", ("a", 1%nat)); ("b", ("b", 1%nat)); ("c", ("c", 1%nat))], [true; false; true]).
+                   if (String.eqb c "b"%string && Nat.eqb v 0)%bool then None else Some (c, v) in
+  run_history compute [(["a"%string], 0%nat); (["a"%string; "b"%string; "c"%string], 0%nat)] [] = ([("a"%string, ("a"%string, 0%nat))], [true; false]) /\
+  run_history compute [(["a"%string], 0%nat); (["a"%string; "b"%string; "c"%string], 0%nat); (["a"%string; "b"%string; "c"%string], 1%nat)] []
+  = ([("a"%string, ("a"%string, 1%nat)); ("b"%string, ("b"%string, 1%nat)); ("c"%string, ("c"%string, 1%nat))], [true; false; true]).
 Proof. vm_compute. split; reflexivity. Qed.
